@@ -1,7 +1,7 @@
 """C16 — issued certificates (new_cert and wrappers). DESIGN §4 C16."""
 import ast
 
-from .common import ctx, returns, calls_in_ctx, site, srcs_text, full_text, bound_args, call_arg, explore, inline_ast
+from .common import memo_rule, ctx, returns, calls_in_ctx, site, srcs_text, full_text, bound_args, call_arg, explore, inline_ast
 from ..flow import callee_attr
 from ..linexpr import lin, show, NotLinear
 from ..loader import AnalysisError, norm, NOVALUE
@@ -33,6 +33,8 @@ def _killed(cx, call, atom):
 
 
 def run(R):
+    memo_rule(R, 'C16.MEM.1', ('ndn.app_support.security_v2',), 'the certificate name is built by extending the key name; a shared key-name list grows '
+              'with every certificate issued for the same key')
     P = R.P
     nc = ctx(R, SV + '.new_cert')
     params = [a.arg for a in nc.f.node.args.args]
